@@ -52,6 +52,16 @@ static struct viol { char sig[200]; char detail[600]; char cex[300]; uint64_t co
 static int nV;
 int vf_nviolations(void) { return nV; }
 
+/* signatures listed in KNOWN_FINDINGS.txt (passed by bin/vcheck in VF_KNOWN_SIGS, newline separated) are still
+ * recorded and reported, but do not count towards "stop exploring soon after the first violation" or pruning */
+static int is_known(const char *sig) {
+    static const char *k; static int init;
+    if (!init) { k = getenv("VF_KNOWN_SIGS"); init = 1; }
+    if (!k || !*k) return 0;
+    size_t n = strlen(sig); const char *p = k;
+    while ((p = strstr(p, sig))) { if ((p == k || p[-1] == '\n') && (p[n] == 0 || p[n] == '\n')) return 1; p += n; }
+    return 0;
+}
 int vf_violation_sink_fd = -1;
 extern uint64_t fr_current_idx __attribute__((weak));
 
@@ -64,11 +74,10 @@ void vf_violation(const char *sig, const char *fmt, ...) {
         for (int k = 0; k < o; k++) if (buf[k] == '\n') buf[k] = ' ';
         buf[o++] = '\n';
         if (write(vf_violation_sink_fd, buf, (size_t)o) < 0) _exit(3);
-        vf_violation_events++;
+        if (!is_known(sig)) vf_violation_events++;
         return;
     }
-    if (!vf_violation_events) vf_first_violation_t = vf_now_s();
-    vf_violation_events++;
+    if (!is_known(sig)) { if (!vf_violation_events) vf_first_violation_t = vf_now_s(); vf_violation_events++; }
     for (i = 0; i < nV; i++) if (strcmp(V[i].sig, sig) == 0) { V[i].count++; return; }
     if (nV == MAXV) return;
     struct viol *v = &V[nV];
